@@ -97,6 +97,21 @@ Shape "separator shift" of leg "seq" (a seventh of the generated sequential case
     says whether a request's proper prefix spells (same ':'-joined text) a different message list another conversation was
     served before, with the same roles or not, and whether that list was stored after this conversation's previous turn.
 
+Case dimension "LLM errors" of leg "seq" (case key "err": {"tasks": [...]}, conversation spec key "boom": [turns]; a fifth of the
+    ordinary sequential cases + enumerated family "failed LLM call").  The provider fails - the fake LLM raises ProviderError instead
+    of completing - for a prompt of one of the named tasks whose current user text carries ERR_MARKER: a pure function of the
+    prompt, so the request fails in the isolated replay as well.  The tasks are the `with llm_params(...)` sites of a Colang 1.0
+    turn (self check input / output, intent generation, bot message, the general call with an llm_params option).  The other
+    conversations are served after / between the failed requests.  Oracle unchanged: parameters at rest after every turn
+    (the failed one included), parameters of every later call vs the isolated replay.
+
+Configuration dimension "context variable in a predefined message" of leg "seq" (cfg key "greetvar", ext "c15-gv" or one of the other
+    two; a sixth of the ordinary sequential cases with dialog rails + enumerated family of the same name).  The predefined greeting is
+    "... dear $user_name!"; some conversations supply user_name in a context message, others do not, and about half of the
+    turns ask for the greeting.  The isolated replays must not depend on what was served before in the worker process (earlier
+    cases, the other replays): class Canary - a throw-away instance serves a conversation with a name of its own right
+    before every isolated replay and right before the shared run.
+
 Leg "v2" (Colang 2.x, `import llm` / `activate llm continuation`, cfg {"v": 2, "dialog": "llmc"})
     2-3 conversations of 1-2 turns; every call passes the new user message and the state object returned by the previous call
     ({} on the first turn).  The LLM (pure function of the prompt, parameterised by the case's "llmc" policy) picks the user
@@ -157,7 +172,17 @@ HANG_IS_VIOLATION = False
 WALL = {"quick": 130, "thorough": 1400}
 MAX_STEPS = 400_000
 RULE = (
-    "three legs: seq and conc 4/9 of the generated cases each, v2 1/9, plus eight enumerated families. "
+    "three legs: seq and conc 4/9 of the generated cases each, v2 1/9, plus ten enumerated families. "
+    "Case dimension LLM ERRORS of leg seq (a fifth of the ordinary seq cases): the provider FAILS (the fake LLM raises instead of completing) for the prompts of 1-2 drawn tasks of the configuration - general, "
+    "generate_user_intent, generate_bot_message, self_check_input, self_check_output: every `with llm_params` site of a Colang 1.0 turn whose prompt shows the current user text - when that text carries a marker; 1-2 "
+    "conversations have 1-2 such turns (spec key 'boom'), so a request fails inside a parameterised call (generate raises LLMCallException, the same in the isolated replay) before / between the turns of the other "
+    "conversations of the drawn interleaving; enumerated family 'failed LLM call' (A's turn fails in self-check input / intent generation / self-check output / bot message / general call with llm_params option, then B, "
+    "A goes on; A1 B1 A2 B2 and A A B B - quick 3 cases, thorough 90 over LLM variant x call mode). Oracle unchanged: parameters at rest after EVERY turn incl. the failed one, and every later call's parameters vs the isolated replay. "
+    "Configuration dimension CONTEXT VARIABLE IN A PREDEFINED MESSAGE of leg seq (cfg key 'greetvar'; a sixth of the ordinary seq cases that have dialog rails): the predefined greeting refers to $user_name; about half of the "
+    "conversations supply the variable in a context message (each its own value), about half of all turns are texts the prompt-pure LLM reads as a request answered by the greeting (flows greeting / joke, via the case table "
+    "'intents'), so a conversation WITHOUT the variable reaches the message after / between the turns of conversations WITH it; enumerated family of the same name (all of A then all of B / A1 B1 A2 B2 / three conversations with "
+    "two names / B first - quick 2 cases, thorough 24). In these cases a throw-away instance of the same configuration serves a canary conversation (its own user_name) immediately before every isolated replay and before the "
+    "shared run, so that the replays do not depend on what other instances did earlier in the worker process. "
     "Configuration dimension MAX_LENGTH of the Colang 1.0 legs (a fifth of the ordinary seq cases, the seq shape 'overflow in between' = a seventh of the seq cases, about a sixth of the conc cases): the shipped "
     "template of general / generate_user_intent / generate_next_steps / generate_bot_message (1-3 of the dialog tasks) is configured again with a lowered max_length (general 420/480/600, user intent 2800/3000, "
     "next steps 1200/1260, bot message 3150/3350 characters - a few turns above the size of the prompt without history), so the renderer drops events from the start of the history; conversations of LONG messages "
@@ -215,9 +240,12 @@ RULE = (
     "(which refines virtual time); seq and conc in multi-step generation mode also: the instance started the same LLM-written flow body for two different conversations, or one conversation's body carried an inline text for a bot intent that another conversation came to later (with no / another text of its own); "
     "seq and conc with a lowered max_length also: a request was served after / between two turns of its conversation / while in flight ANOTHER conversation's prompt overflowed on the shared instance (observed by a counting probe around the renderer); "
     "conc with rail name lists also: a request without rails option was in flight together with a request whose lists leave out a configured rail; "
+    "seq with LLM errors also: another conversation was served after a request whose LLM call failed; seq with the greeting that refers to $user_name also: a conversation without the variable got the greeting from the shared instance after one with it; "
     "v2 = LLM-generated flows were added for at least two conversations on the shared instance. Distinct by case hash; only cases on which the property held are counted."
 )
 ASSUMPTIONS = [
+    "LLM errors: a provider failure is part of 'the LLM's answers to the prompts': the fake LLM raises for a prompt as a pure function of (case policy, task, prompt), so the same request fails alone and on the shared instance; what generate does with the failure (the unchanged tree raises LLMCallException to the caller) is not judged beyond the differential; the caller keeps the failed user message in the history it sends next, as it does in the isolated replay. That LLMParams restores the parameters when the call inside the block raises is the unchanged tree's behaviour and what the statement's last sentence demands (no request in flight -> configured parameters); the defect model of F9b/F9c treats a block's exit the same whether the body raised or not",
+    "context variable in a predefined message: `$user_name` in a bot message is filled from the context of the conversation being served (documented); a conversation that never set it gets whatever the unchanged tree renders for an undefined variable (an empty text) - not judged, only compared with its isolated replay. The canary conversation runs on an instance of its own (never the shared one or a replay's), which by the statement cannot influence anything; its name is used by no conversation of a case",
     "the LLM is a pure function of the prompt (statement: 'and the LLM's answers to the prompts built from them'); fake rails are pure functions of the text they see",
     "multi-step generation mode: the LLM writes well-formed bodies only (sequences of `bot <intent>` steps, optionally `user ...` / `user <intent>` followed by one more bot step; a bot step may carry its message inline as an indented quoted text, the documented Colang 1.0 form the shipped prompt's examples use); hostile bodies are C17's subject. The body is a function of the prompt alone, so two conversations asking the same kind of thing get the same body - what the instance does with a body it has seen before is the subject here",
     "a text the LLM writes inline for a bot step of ONE conversation's generated flow belongs to that conversation: whether the instance uses it for that turn or asks the LLM for the message is not judged (both runs do the same); another conversation must see neither",
@@ -287,6 +315,12 @@ def _ms_build_config(cfg, colang, yaml_text):
         y["enable_multi_step_generation"] = True
     if cfg.get("maxlen"):
         y["prompts"] = list(y.get("prompts") or []) + _maxlen_prompts(colang, yaml_text, cfg["maxlen"])
+    if cfg.get("greetvar"):
+        # configuration dimension "context variable in a predefined message": the greeting refers to $user_name
+        old = f'define bot express greeting\n  "{fakes.PREDEF["greet"]}"'
+        if colang.count(old) != 1:
+            raise RuntimeError("c15: configuration without the predefined greeting (greetvar needs dialog rails)")
+        colang = colang.replace(old, f'define bot express greeting\n  "{fakes.PREDEF["greet"]} dear $user_name!"')
     return colang, yaml.safe_dump(y, sort_keys=False)
 
 
@@ -311,6 +345,8 @@ def _maxlen_prompts(colang, yaml_text, maxlen):
 
 pipeline.register_extension(EXT_MS, build_config=_ms_build_config)
 pipeline.register_extension(EXT_ML, build_config=_ms_build_config)
+EXT_GV = "c15-gv"  # configuration dimension "context variable in a predefined message" alone (cfg key "greetvar", also under the other two names)
+pipeline.register_extension(EXT_GV, build_config=_ms_build_config)
 
 # the tasks whose prompt a Colang 1.0 turn renders from the history of events, with drawn limits: the shipped templates come
 # to about 300 (general), 2600 (generate_user_intent), 1150 (generate_next_steps) and 2900 (generate_bot_message)
@@ -420,6 +456,7 @@ class DigestSession(fakes.Session):
         # case); everything else by digest
         self.replies = dict((tables or {}).get("replies") or {})
         self.intents = dict((tables or {}).get("intents") or {})
+        self.err = dict((tables or {}).get("err") or {})  # case dimension "LLM errors": which prompts the provider fails for
         self.llmc = dict(llmc or {})  # leg "v2": how the LLM writes flows (a parameter of the case, the same in every run of it)
 
     def rail_verdict(self, cat, idx, turn, text):
@@ -439,6 +476,8 @@ class DigestSession(fakes.Session):
 
     def llm_answer(self, task, prompt, turn, k):
         prompt = prompt if isinstance(prompt, str) else json.dumps(prompt, sort_keys=True, default=str)
+        if self.err and _err_hit(self.err, task, prompt):
+            raise ProviderError("503 service unavailable")
         d = _dg(prompt)
         ms = _ms_policy(self.cfg)
         if task == "generate_user_intent":
@@ -726,6 +765,38 @@ def _disjoint_overlap(events):
     return False
 
 
+class ProviderError(RuntimeError):
+    """The LLM provider failed (case dimension "LLM errors"): raised by the fake LLM INSTEAD of a completion, as a pure function
+    of the prompt - so the same request fails in the isolated replay and on the shared instance alike."""
+
+
+ERR_MARKER = "ERR503"
+# tasks whose prompt shows the text of the current user turn: the provider fails when that text carries the marker
+ERR_TASKS = ("general", "generate_user_intent", "generate_bot_message", "self_check_input", "self_check_output")
+
+
+def _err_hit(err, task, prompt):
+    """Does the provider fail for this prompt?  A function of (case policy, task, prompt) only."""
+    if not err or task not in (err.get("tasks") or ()):
+        return False
+    if task in ("self_check_input", "self_check_output"):  # fakes.SELF_CHECK_PROMPTS: both show the user's text
+        return ERR_MARKER in prompt
+    return ERR_MARKER in (_asked_text(prompt) or "")
+
+
+def _complete(llm, session, rec, task, prompt, turn, k, kwargs):
+    """The completion of one LLM call (or the provider's error); the call record gets the parameters at its end either way."""
+    try:
+        answer = session.llm_answer(task, prompt, turn, k)
+    except ProviderError as e:
+        llm._finish(session, rec, f"<provider error: {e}>")
+        rec.update(t_end=kwargs.get("temperature", rec["t_end"]), mt_end=kwargs.get("max_tokens", rec["mt_end"]), failed=True)
+        raise
+    out = llm._finish(session, rec, answer)
+    rec.update(t_end=kwargs.get("temperature", rec["t_end"]), mt_end=kwargs.get("max_tokens", rec["mt_end"]))
+    return out
+
+
 class FieldLLM(fakes.ScriptedLLM):
     """ScriptedLLM (real `temperature` / `max_tokens` fields) that also records max_tokens and the loop time of every call."""
 
@@ -742,9 +813,7 @@ class FieldLLM(fakes.ScriptedLLM):
     def _call(self, prompt: str, stop: Optional[List[str]] = None, run_manager: Any = None, **kwargs: Any) -> str:
         session, turn, k, task, rec = self._begin(prompt, stop)
         rec.update(t_start=kwargs.get("temperature", rec["t_start"]), mt_start=kwargs.get("max_tokens", rec["mt_start"]))
-        out = self._finish(session, rec, session.llm_answer(task, prompt, turn, k))
-        rec.update(t_end=kwargs.get("temperature", rec["t_end"]), mt_end=kwargs.get("max_tokens", rec["mt_end"]))
-        return out
+        return _complete(self, session, rec, task, prompt, turn, k, kwargs)
 
     async def _acall(self, prompt: str, stop: Optional[List[str]] = None, run_manager: Any = None, **kwargs: Any) -> str:
         session, turn, k, task, rec = self._begin(prompt, stop)
@@ -752,9 +821,7 @@ class FieldLLM(fakes.ScriptedLLM):
         lat = session.llm_latency(turn, k, task)
         if lat:
             await asyncio.sleep(lat)
-        out = self._finish(session, rec, session.llm_answer(task, prompt, turn, k))
-        rec.update(t_end=kwargs.get("temperature", rec["t_end"]), mt_end=kwargs.get("max_tokens", rec["mt_end"]))
-        return out
+        return _complete(self, session, rec, task, prompt, turn, k, kwargs)
 
     def snapshot(self):
         return {"temperature": self.temperature, "max_tokens": self.max_tokens}
@@ -793,9 +860,7 @@ class KwargsLLM(LLM):
     def _call(self, prompt: str, stop: Optional[List[str]] = None, run_manager: Any = None, **kwargs: Any) -> str:
         session, turn, k, task, rec = self._begin(prompt, stop)
         rec.update(t_start=kwargs.get("temperature", rec["t_start"]), mt_start=kwargs.get("max_tokens", rec["mt_start"]))
-        out = self._finish(session, rec, session.llm_answer(task, prompt, turn, k))
-        rec.update(t_end=kwargs.get("temperature", rec["t_end"]), mt_end=kwargs.get("max_tokens", rec["mt_end"]))
-        return out
+        return _complete(self, session, rec, task, prompt, turn, k, kwargs)
 
     async def _acall(self, prompt: str, stop: Optional[List[str]] = None, run_manager: Any = None, **kwargs: Any) -> str:
         session, turn, k, task, rec = self._begin(prompt, stop)
@@ -803,9 +868,7 @@ class KwargsLLM(LLM):
         lat = session.llm_latency(turn, k, task)
         if lat:
             await asyncio.sleep(lat)
-        out = self._finish(session, rec, session.llm_answer(task, prompt, turn, k))
-        rec.update(t_end=kwargs.get("temperature", rec["t_end"]), mt_end=kwargs.get("max_tokens", rec["mt_end"]))
-        return out
+        return _complete(self, session, rec, task, prompt, turn, k, kwargs)
 
     def snapshot(self):
         return {"model_kwargs": dict(self.model_kwargs)}
@@ -937,9 +1000,9 @@ def _reply_message(norm):
 
 def _tables(case):
     """The case's LLM tables (shape "separator shift"): None, or {"replies": {user text: bot text}, "intents": {user text: intent}}."""
-    if not case.get("replies") and not case.get("intents"):
+    if not case.get("replies") and not case.get("intents") and not case.get("err"):
         return None
-    return {"replies": case.get("replies") or {}, "intents": case.get("intents") or {}}
+    return {"replies": case.get("replies") or {}, "intents": case.get("intents") or {}, "err": case.get("err") or {}}
 
 
 class Conv:
@@ -1453,11 +1516,103 @@ def _drive(gen, api):
     return pipeline.loop().run_until_complete(main())
 
 
-def _seq_isolated(case, problems):
+CANARY_NAME = "CANARYNAME"
+CANARY_TEXT = "canary says hello"
+
+
+class Canary:
+    """Keeps the isolated replays independent of the shared run (configuration dimension "context variable in a predefined
+    message").  The reference of the differential is "the conversation alone on a fresh instance"; the worker process,
+    however, has served other instances before (earlier cases, the other replays of this case), and state that lives outside
+    the instance would make a replay computed AFTER a conversation with the variable agree with the shared run for the wrong
+    reason.  So a throw-away instance of the same configuration - never the shared one, never a replay's - serves a
+    conversation of its own (context variable user_name = CANARY_NAME, which no conversation of a case uses; a text the LLM
+    reads as a greeting) immediately before every isolated replay and immediately before the shared run: whatever another
+    instance can leave behind in the process is then the same before each of them.  By the statement (and on the unchanged
+    tree) a different instance has no influence at all, so this changes nothing for a correct implementation."""
+
+    def __init__(self, case):
+        self.case, self.n, self.k = case, 0, None
+        self.pipe = Pipe(case["config"], case["llm"])
+
+    def serve(self):
+        """One canary conversation.  The rails of the configuration are pure functions of the text: the first of a fixed list
+        of texts that gets through them to the greeting is used from then on (a refused try stays on the canary instance)."""
+        cfg, api = self.case["config"], self.case.get("api", "sync")
+        pipe, last = self.pipe, None
+        for k in ([self.k] if self.k is not None else range(16)):
+            self.n += 1
+            text = f"{CANARY_TEXT} {k}"
+            conv = Conv(-self.n, cfg, [{"role": "context", "content": {"user_name": CANARY_NAME}}], 1, tables={"intents": {text: fakes.ROUTES["predef"][0]}})
+
+            def one(conv=conv, text=text):
+                o = yield (pipe, conv, 0, text)
+                return o
+
+            o = last = _drive(one(), api)
+            if o["raised"] is None and CANARY_NAME in str(o["message"].get("content")):
+                self.k = k
+                return
+        raise RuntimeError(f"c15 harness: the canary conversation did not get the greeting with its own name: {last['raised'] or last['message']}")
+
+
+def _has_name(spec):
+    return any(m.get("role") == "context" and isinstance(m.get("content"), dict) and "user_name" in m["content"] for m in spec.get("init", []))
+
+
+def _greetvar_facts(cfg, case, convs, sched, labels):
+    """Labels / non-triviality of the dimension "context variable in a predefined message": a conversation WITHOUT the variable
+    got the greeting from the shared instance after a conversation WITH the variable had got it."""
+    if not cfg.get("greetvar"):
+        return False
+    labels.append("greeting-refers-to-$user_name")
+    nxt, named_before, nt = [0] * len(convs), False, False
+    for i in sched:
+        t = nxt[i]
+        nxt[i] += 1
+        o = convs[i].obs[t] if t < len(convs[i].obs) else None
+        if o is None or o["raised"] is not None or fakes.PREDEF["greet"] not in str(o["message"].get("content")):
+            continue
+        if _has_name(case["convs"][i]):
+            named_before = True
+            labels.append("greeting-for-a-conversation-with-$user_name")
+        else:
+            labels.append("greeting-for-a-conversation-without-$user_name" + ("-after-one-with-it" if named_before else ""))
+            nt = nt or named_before
+    return nt
+
+
+def _err_facts(case, convs, sched, labels):
+    """Labels / non-triviality of the dimension "LLM errors": another conversation was served after a failed LLM call."""
+    if not case.get("err"):
+        return False
+    labels.append("llm-errors:" + "+".join(case["err"].get("tasks") or []))
+    nxt, failed_by, nt = [0] * len(convs), None, False
+    for i in sched:
+        t = nxt[i]
+        nxt[i] += 1
+        o = convs[i].obs[t] if t < len(convs[i].obs) else None
+        if o is None:
+            continue
+        if failed_by is not None and i != failed_by:
+            labels.append("other-conversation-served-after-a-failed-llm-call")
+            nt = True
+        for rc in o["raw_calls"]:
+            if rc.get("failed"):
+                labels.append("llm-call-failed:" + str(rc["task"]))
+                labels.append("request-with-failed-llm-call-" + ("raised" if o["raised"] is not None else "answered"))
+                if failed_by is None:
+                    failed_by = i
+    return nt
+
+
+def _seq_isolated(case, problems, canary=None):
     """Replays every conversation alone on a fresh instance (index order, so references can be resolved)."""
     cfg, api = case["config"], case.get("api", "sync")
     iso = {}
     for i, spec in enumerate(case["convs"]):
+        if canary:
+            canary.serve()
         pipe = Pipe(cfg, case["llm"])
         rec = {"replies": [], "keys": [], "texts": [], "obs": [], "init": None, "transcripts": [], "ptrace": pipe.ptrace, "cuts": pipe.cuts}
         iso[i] = rec
@@ -1469,7 +1624,7 @@ def _seq_isolated(case, problems):
 
 def _seq_isolated_one(i, spec, pipe, conv, rec, iso, problems):
     for t, tspec in enumerate(spec["users"]):
-        text = _resolve_text(tspec, i, t, iso) + _pad(i, spec.get("pad"))
+        text = _resolve_text(tspec, i, t, iso) + _pad(i, spec.get("pad")) + (" " + ERR_MARKER if t in (spec.get("boom") or ()) else "")
         rec["texts"].append(text)
         o = yield (pipe, conv, t, text)
         rec["obs"].append(o)
@@ -1511,12 +1666,14 @@ def _between(case):
     return int(b.get("after", 0)), int(b["n"]), str(b.get("atom", "hi"))
 
 
-def _filler_isolated(case, ks, problems):
+def _filler_isolated(case, ks, problems, canary=None):
     """Isolated replays of the fillers that are judged (the first and the last one - each costs a fresh instance)."""
     cfg, api = case["config"], case.get("api", "sync")
     atom = _between(case)[2]
     out = {}
     for k in ks:
+        if canary:
+            canary.serve()
         pipe = Pipe(cfg, case["llm"])
         conv = Conv(FILLER + k, cfg, [], 1, tables=_tables(case))
 
@@ -1534,7 +1691,8 @@ def run_seq(case, problems):
     for cat in ("in", "out"):
         for k in cfg.get(cat, []):
             labels.append(f"{cat}-rail={k}")
-    iso = _seq_isolated(case, problems)
+    canary = Canary(case) if cfg.get("greetvar") else None
+    iso = _seq_isolated(case, problems, canary)
     shared = Pipe(cfg, case["llm"])
     convs = [Conv(i, cfg, iso[i]["init"], len(s["users"]), _conv_options(s, cfg), bool(s.get("stream")), tables=_tables(case)) for i, s in enumerate(case["convs"])]
     if case.get("replies"):
@@ -1569,18 +1727,22 @@ def run_seq(case, problems):
     state = {"nt": False}
     after, n_fill, _ = _between(case)
     judged_fill = sorted({0, n_fill - 1}) if n_fill else []
-    fill_iso = _filler_isolated(case, judged_fill, problems) if n_fill else {}
+    fill_iso = _filler_isolated(case, judged_fill, problems, canary) if n_fill else {}
     if n_fill:
         labels.append("conversations-in-between=" + ("1-9" if n_fill < 10 else "10-127" if n_fill < 128 else "128+"))
         # which conversation has a turn before AND after the fillers (its cached history has to survive them)
         if after is not None and any(i in sched[after + 1:] for i in sched[:after + 1]):
             labels.append("conversation-continues-after-the-conversations-in-between")
+    if canary:
+        canary.serve()
     _drive(_seq_shared(case, shared, convs, iso, sched, model, labels, problems, unjudged, tainted_convs, diverged, state, fill_iso), api)
     skip = unjudged | diverged | {FILLER + k for k in range(n_fill) if k not in fill_iso}
     _set_blocks_match(problems, _blocks_match(shared.ptrace, [iso[i]["ptrace"] for i in iso] + [f["ptrace"] for f in fill_iso.values()], skip=skip))
     nt = _ms_facts(cfg, convs, labels) or state["nt"]
     nt = _maxlen_facts(cfg, shared, convs, {i: iso[i]["cuts"] for i in iso}, case["convs"], labels) or nt
     _rails_list_facts(cfg, convs, case["convs"], labels)
+    nt = _greetvar_facts(cfg, case, convs, sched, labels) or nt
+    nt = _err_facts(case, convs, sched, labels) or nt
     if unjudged:
         labels.append("some-conversation-not-judged")
     labels.append(f"switches={min(switches, 4)}{'+' if switches > 4 else ''}")
@@ -2349,6 +2511,62 @@ def _overflow_family(tier):
                "convs": [conv(b_users), conv(a_users, pad)], "order": _order_for(sched, [3, 4])}
 
 
+GREET_TEXTS = ["hi", "hello there", "good morning", "tell me a joke", "hey"]
+# user text -> the intent the LLM picks for it (case table "intents"): flows `greeting` (the greeting) and `joke` (the greeting, then an LLM text)
+GREET_INTENTS = {"hi": "express greeting", "hello there": "express greeting", "good morning": "express greeting", "hey": "express greeting", "tell me a joke": "ask joke"}
+USER_NAMES = ["Alice Liddell", "Bob", "a:b", "Dr. Who"]
+
+
+def _err_tasks(cfg):
+    """The tasks of a configuration whose prompt shows the current user text (see ERR_TASKS)."""
+    out = ["generate_user_intent", "generate_user_intent", "generate_bot_message"] if cfg.get("dialog") else ["general"]
+    if "self" in cfg.get("in", []):
+        out += ["self_check_input"] * 2
+    if "self" in cfg.get("out", []):
+        out += ["self_check_output"]
+    return out
+
+
+def _err_family(tier):
+    """Enumerated family "failed LLM call": conversation A has a turn whose LLM call fails (self-check of the input, intent
+    generation, the general call / bot message), then conversation B is served (and A goes on) on the same instance."""
+    plans = [(SEQ_CFGS[6], "self_check_input"), (SEQ_CFGS[0], "generate_user_intent"), (SEQ_CFGS[5], "self_check_output"), (SEQ_CFGS[0], "generate_bot_message"), (SEQ_CFGS[2], "general")]
+    quick = tier == "quick"
+    for x, (cfg, task) in enumerate(plans[:3] if quick else plans):
+        for llm in (["field", "kw0"][x % 2:][:1] if quick else ["field", "kw0", "kw1"]):
+            for api in (["sync", "async", "onecoro"][x % 3:][:1] if quick else ["sync", "async", "onecoro"]):
+                for order, boom in (([0, 1, 0, 1], [0]), ([0, 0, 1, 1], [1])):
+                    if quick and (order[1] == 0) != (x == 1):
+                        continue
+                    convs = [{"init": [], "users": [["how is the weather"], ["tell me a story"]], "log": False, "stream": False, "temp": 0.2 if task == "general" else None, "mt": None, "boom": boom},
+                             {"init": [], "users": [["hello there"], ["what time is it"]], "log": False, "stream": False, "temp": None, "mt": None}]
+                    yield {"leg": "seq", "family": "failed LLM call", "config": dict(cfg), "llm": llm, "api": api, "convs": convs, "order": order, "err": {"tasks": [task]}}
+
+
+def _greetvar_family(tier):
+    """Enumerated family "context variable in a predefined message": A supplies $user_name and is greeted, B (no variable) asks
+    for the greeting afterwards; all of A then all of B / A1 B1 A2 B2 / B first (nothing to see) / a third conversation with
+    another name in between."""
+    cfg = dict(SEQ_CFGS[0], greetvar=True, ext=EXT_GV)
+    quick = tier == "quick"
+
+    def conv(name, users):
+        init = [{"role": "context", "content": {"user_name": name}}] if name else []
+        return {"init": init, "users": [[u] for u in users], "log": False, "stream": False, "temp": None, "mt": None}
+
+    plans = [
+        ([conv("Alice Liddell", ["hi", "how is the weather"]), conv(None, ["hi", "what time is it"])], [0, 0, 1, 1]),
+        ([conv("Bob", ["tell me a joke", "hello there"]), conv(None, ["how is the weather", "hello there"])], [0, 1, 0, 1]),
+        ([conv("Alice Liddell", ["good morning"]), conv("Bob", ["hey"]), conv(None, ["tell me a joke", "hi"])], [0, 2, 1, 2]),
+        ([conv(None, ["hi", "hey"]), conv("a:b", ["hi", "hey"])], [0, 1, 0, 1]),
+    ]
+    for x, (convs, order) in enumerate(plans[:2] if quick else plans):
+        for llm in (["field"] if quick else ["field", "kw0"]):
+            for api in (["sync", "onecoro"][x % 2:][:1] if quick else ["sync", "async", "onecoro"]):
+                yield {"leg": "seq", "family": "context variable in a predefined message", "config": dict(cfg), "llm": llm, "api": api,
+                       "convs": json.loads(json.dumps(convs)), "order": order, "intents": dict(GREET_INTENTS)}
+
+
 @st.composite
 def _seq_case(draw, llms=None):
     cfg = draw(_st_ms(draw(st.sampled_from(SEQ_CFGS))))
@@ -2398,9 +2616,31 @@ def _seq_case(draw, llms=None):
             alt = {"temp": 0.35}
         twin.update(alt)
         convs[j + 1] = twin
+    # configuration dimension "context variable in a predefined message" (a sixth of the cases on a dialog-rails configuration):
+    # the greeting refers to $user_name; about half of the conversations supply it (context message, each its own value),
+    # about half of all turns are texts the LLM reads as a request that is answered with the greeting
+    intents = None
+    if cfg.get("dialog") and draw(st.sampled_from([True] + [False] * 5)):
+        cfg = dict(cfg, greetvar=True, ext=cfg.get("ext") or EXT_GV)
+        intents = dict(GREET_INTENTS)
+        for i, c in enumerate(convs):
+            if draw(st.sampled_from([True, True, False]) if i == 0 else st.booleans()):
+                c["init"] = [{"role": "context", "content": {"user_name": USER_NAMES[i % len(USER_NAMES)]}}] + c["init"]
+            c["users"] = [[draw(st.sampled_from(GREET_TEXTS))] if draw(st.booleans()) else u for u in c["users"]]
+    # case dimension "LLM errors" (a fifth of the cases): the provider fails for the prompts of 1-2 tasks of the configuration
+    # that show a user text carrying the marker; one or two conversations have such a turn
+    err = None
+    if draw(st.sampled_from([True] + [False] * 4)):
+        err = {"tasks": sorted(set(draw(st.lists(st.sampled_from(_err_tasks(cfg)), min_size=1, max_size=2))))}
+        for i in sorted(set(draw(st.lists(st.sampled_from([0, 0, 1, n - 1]), min_size=1, max_size=2)))):
+            convs[i]["boom"] = sorted(set(draw(st.lists(st.integers(0, len(convs[i]["users"]) - 1), min_size=1, max_size=2))))
     total = sum(len(c["users"]) for c in convs)
     order = draw(st.lists(st.integers(0, n - 1), min_size=total, max_size=total))
     case = {"leg": "seq", "config": cfg, "llm": draw(st.sampled_from(llms or LLMS)), "api": draw(st.sampled_from(["sync", "async", "onecoro", "onecoro"])), "convs": convs, "order": order}
+    if intents:
+        case["intents"] = intents
+    if err:
+        case["err"] = err
     # a quarter of the cases: other (cheap, single-turn, unique) conversations are served between two steps of the interleaving -
     # a few, some dozens, or more than any plausible bound on "recently served conversations" (see also `enumerate_cases`)
     n_between = draw(st.sampled_from(BETWEEN_NS))
@@ -2850,6 +3090,8 @@ def _ms_inline_family(tier):
 
 
 def enumerate_cases(tier):
+    yield from _err_family(tier)
+    yield from _greetvar_family(tier)
     yield from _ms_family(tier)
     yield from _ms_inline_family(tier)
     yield from _shift_family(tier)
